@@ -195,7 +195,33 @@ def _classify_listed(case, detail):
     return 'KF-C01-3' if '):' in case[0].replace(' ', '') and 'parsed as' in detail and ', :' in detail else None
 
 
+# ---- constants keep their own spelling: two literals that differ only in letter case are two operands of the tree ---------------
+LITERALS = [
+    ('="a"&"A"', 'aA'), ('="x"&"X"&"x"', 'xXx'), ('=CONCATENATE("Ab","aB","AB")', 'AbaBAB'), ('=IF(A1>0,"yes","YES")', 'yes'),
+    ('=IF(A1<0,"yes","YES")', 'YES'), ('=SUBSTITUTE("banana","a","A")', 'bAnAnA'), ('="abc"', 'abc'),
+    ('=LEFT("qQ",1)&RIGHT("Qq",1)', 'qq'), ('=true&TRUE&True', 'TRUETRUETRUE'), ('=IF(TRUE,"n/a","N/A")&"#n/a"', 'n/a#n/a'),
+    ('=LOWER("Ab")&UPPER("aB")&"ab"&"AB"', 'abABabAB'), ('=("é"&"É")', 'éÉ'),
+]
+
+
+def _check_literal_case(case):
+    text, want = case
+    try:
+        b = _parse(text)
+        got = _value(b)
+    except Exception as ex:
+        return '%s raised %s: %s' % (text, type(ex).__name__, str(ex)[:80])
+    if not _same_value(got, want) or type(got) is not type(want):
+        return '%s = %r, expected %r' % (text, got, want)
+    if text == '="abc"' and b[-1].get_expr != '"abc"':
+        return '%s is exported as %s' % (text, b[-1].get_expr)
+    return None
+
+
 BOUNDED = [
+    Stage('B1:literals-keep-their-spelling', 'C01', lambda tier, rng: list(LITERALS), _check_literal_case,
+          '%d formulas whose text / logical literals differ only in letter case: every literal is an operand of its own' % len(LITERALS),
+          parallel=False),
     Stage('B1:listed-formulas', 'C01', lambda tier, rng: list(LISTED), _check_listed,
           '%d listed formulas (range operator next to parentheses, empty arguments, redundant blanks and case) with the exported text of '
           "Excel's tree" % len(LISTED), parallel=False, classify=_classify_listed),
@@ -833,3 +859,20 @@ def _separator_any_contract():
 
 
 _separator_any_contract()
+
+
+PROPERTIES['C01']['explanation'] = (
+    'Proved for EVERY stack depth (loop specifications, pyvc/loops.py: inductive invariant + variant of the real while loops, stack and output as '
+    'sequences of symbolic length over the tokens the handlers push): the pop loop of Operator.ast for the 15 binary / postfix / reference operators '
+    'moves exactly the maximal run of operators of not lower Excel rank from the top of the stack to the output, in stack order, then pushes the '
+    'incoming operator; the flush loop of Separator.ast moves exactly the tokens above the nearest opening token and rejects a separator without one. '
+    + PROPERTIES['C01']['explanation'])
+PROPERTIES['C01']['not_proved'] = [
+    'the closing branch of Parenthesis.ast (it mutates stack elements; proved on stacks of depth <= 2 only), Function / Array handlers, the final '
+    'unwinding loop of Parser.ast, sign-run folding, and the composition of the handler steps into "tree of the formula = tree of the grammar": bounded stage only']
+PROPERTIES['C01'].setdefault('assumptions', [])
+PROPERTIES['C01']['assumptions'] = list(PROPERTIES['C01']['assumptions']) + [
+    'type invariant of the parser stack assumed by the any-depth contracts: every element is one of the 18 operator tokens, an opening parenthesis or a '
+    'function token (the only classes whose ast() pushes onto the stack), and the loops do not mutate stack elements (a mutation leaves the supported subset)',
+    'any-depth contracts: the incoming token follows an operand (binary reading of + and -); paths through a loop invariant have no concolic cross-check, '
+    '1111 concrete stacks of depth <= 3 per contract are run on the real code against the same clauses instead']
